@@ -227,7 +227,8 @@ func (e *Engine) dischargeAll(obs []*Oblig) {
 				// vacuity / canary checks only need "not provably unsat": one solver, short budget
 				o.Res, o.File = dischargeOne(o.Script, e.outDir, o.Name(), 3)
 			} else {
-				o.Res, o.File = discharge(o.Script, e.outDir, o.Name(), e.timeoutS, e.race)
+				// obligations listed as known findings are expected to stay undischarged: no second, longer attempt
+				o.Res, o.File = discharge(o.Script, e.outDir, o.Name(), e.timeoutS, e.race, !e.knownObligs[o.Name()])
 			}
 		}(o)
 	}
